@@ -291,7 +291,7 @@ int aln_seqseq_meetup(struct aln_mem* m,int old_cor[],int* meet,int* t,float* sc
                 }
 
 
-                if(m->startb == 0){
+                if(i == 0){
                         if(f[i].gb+b[i].gb - tgpe-sub > max){
                                 max = f[i].gb+b[i].gb -tgpe-sub;
                                 //			fprintf(stderr,"gap_b->gap_b:%d + %d +%d(gpe) =%d \n",f[i].gb, b[i].gb, prof1[28],f[i].gb+b[i].gb+prof1[28]);
